@@ -517,9 +517,7 @@ def _infer_default(_param, infer_type):
         _param["default"] = NoneStr
     if infer_type and _param.get("typ") is None and _param["default"] not in none_types:
         _param["typ"] = type(_param["default"]).__name__
-    if needs_quoting(_param.get("typ")) or isinstance(_param["default"], str):
-        _param["default"] = unquote(_param["default"])
-    elif isinstance(_param["default"], AST):
+    if isinstance(_param["default"], AST):
         try:
             _param["default"] = ast.literal_eval(_param["default"])
             # if _param.get("typ") is None or _param["typ"] == "UnaryOp":
@@ -528,6 +526,8 @@ def _infer_default(_param, infer_type):
             _param["default"] = "```{default}```".format(
                 default=paren_wrap_code(to_code(_param["default"]).rstrip("\n"))
             )
+    elif needs_quoting(_param.get("typ")) or isinstance(_param["default"], str):
+        _param["default"] = unquote(_param["default"])
     if _param.get("typ") is None and _param["default"] != NoneStr:
         _param["typ"] = type(_param["default"]).__name__
     if (
